@@ -1,6 +1,6 @@
 (* C03: the canonical k-mer column index is a dense ordered bijection with a closed-form size. *)
 From Coq Require Import NArith List.
-From KT Require Import Model.Kmer Proof.RevComp Proof.PosMap Proof.CanonCount.
+From KT Require Import Gen.Generated Gen.GeneratedFacts Model.Kmer Model.Show Model.Ops Model.Pipeline Proof.RevComp Proof.PosMap Proof.CanonCount Proof.Oligo Proof.RowsProof Proof.PipelineProof.
 Import ListNotations.
 Open Scope N_scope.
 
@@ -14,8 +14,26 @@ Theorem C03_column_count :
   N.of_nat (canon_count k) = (4 ^ N.of_nat k + (if Nat.even k then 4 ^ N.of_nat (Nat.div k 2) else 0)) / 2.
 Proof. exact canon_count_closed_form. Qed.
 
+(* each canonical k-mer maps to its rank and the index-to-k-mer map is the exact inverse: pos_map[vec[j]] = j
+   for every column j, for the vector pos_map built as in the Rust *)
+Theorem C03_rank_map_is_inverse_of_column_list :
+  forall k j, (1 <= k <= 31)%nat -> (j < length (min_mer_vec k))%nat ->
+  nth (N.to_nat (nth j (min_mer_vec k) 0)) (pos_map (min_mer_vec k) (N.to_nat (4 ^ N.of_nat k))) 0%nat = j.
+Proof.
+  intros k j Hk Hj. apply pos_map_rank; [| |exact Hj].
+  - rewrite (min_mer_vec_eq k Hk). apply filter_sorted. apply (nrange_sorted k Hk).
+  - intros x Hx. rewrite (min_mer_vec_eq k Hk) in Hx. apply filter_In in Hx as [Hx _]. apply (in_nrange' x) in Hx. exact Hx.
+Qed.
+
+(* the header names exactly the canonical k-mers, as ACGT text, in column order *)
+Theorem C03_header_names_the_columns :
+  forall k delim, (1 <= k <= 31)%nat -> header_bytes k delim = join delim (map (s_dec k) (canon_list k)) ++ [10].
+Proof. intros k delim Hk. exact (header_model_spec k Hk delim letters_ok). Qed.
+
 Example C03_example : length (min_mer_vec 4) = 136%nat.
 Proof. vm_compute. reflexivity. Qed.
 
 Print Assumptions C03_columns_are_canonical_in_order.
 Print Assumptions C03_column_count.
+Print Assumptions C03_rank_map_is_inverse_of_column_list.
+Print Assumptions C03_header_names_the_columns.
